@@ -209,10 +209,17 @@ func VerifC18RoundTrip(maxNodes, maxEdges, maxGraphs int) {
 	}
 	targets := []GraphTarget{{Name: "alpha"}}
 	verifBuildGraph(src, "alpha", n, e, false)
-	if maxGraphs > 1 && verifrt.NondetChoice("second graph", 2) == 1 {
-		// a second graph with the same counts and different content
-		targets = append(targets, GraphTarget{Name: "beta"})
-		verifBuildGraph(src, "beta", n, e, true)
+	if maxGraphs > 1 {
+		// a second graph with the same counts and different content, listed after or before
+		// the first one (so the target list is or is not in name order)
+		switch verifrt.NondetChoice("second graph", 3) {
+		case 1:
+			targets = append(targets, GraphTarget{Name: "beta"})
+			verifBuildGraph(src, "beta", n, e, true)
+		case 2:
+			targets = []GraphTarget{{Name: "beta"}, {Name: "alpha"}}
+			verifBuildGraph(src, "beta", n, e, true)
+		}
 	}
 
 	options := DefaultDumpOptions(out)
@@ -255,25 +262,29 @@ func VerifC18RoundTrip(maxNodes, maxEdges, maxGraphs int) {
 
 	// a database that differs in a count, a kind or an endpoint does not verify
 	data := dst.graphData("alpha")
-	switch verifrt.NondetChoice("change", 3) {
-	case 0:
-		data.nodes = append(data.nodes, graph.NewNode(999, graph.NewProperties(), graph.StringKind("User")))
-	case 1:
-		if len(data.nodes) == 0 {
-			return
+	savedNodes, savedEdges := append([]*graph.Node{}, data.nodes...), append([]*graph.Relationship{}, data.relationships...)
+	for change := 0; change < 3; change++ {
+		data.nodes, data.relationships = append([]*graph.Node{}, savedNodes...), append([]*graph.Relationship{}, savedEdges...)
+		switch change {
+		case 0:
+			data.nodes = append(data.nodes, graph.NewNode(999, graph.NewProperties(), graph.StringKind("User")))
+		case 1:
+			if len(data.nodes) == 0 {
+				continue
+			}
+			data.nodes[0] = graph.NewNode(data.nodes[0].ID, data.nodes[0].Properties, graph.StringKind("Other"))
+		case 2:
+			if len(data.relationships) == 0 || len(data.nodes) < 2 {
+				continue
+			}
+			first := data.relationships[0]
+			other := data.nodes[0].ID
+			if first.EndID == other {
+				other = data.nodes[1].ID
+			}
+			data.relationships[0] = graph.NewRelationship(first.ID, first.StartID, other, first.Properties, first.Kind)
 		}
-		data.nodes[0] = graph.NewNode(data.nodes[0].ID, data.nodes[0].Properties, graph.StringKind("Other"))
-	case 2:
-		if len(data.relationships) == 0 || len(data.nodes) < 2 {
-			return
-		}
-		first := data.relationships[0]
-		other := data.nodes[0].ID
-		if first.EndID == other {
-			other = data.nodes[1].ID
-		}
-		data.relationships[0] = graph.NewRelationship(first.ID, first.StartID, other, first.Properties, first.Kind)
+		_, err = Verify(ctx, dst, "test", VerifyOptions{InputDir: out, BatchSize: 2})
+		verifrt.Assert(err != nil, "verification fails when the database differs from the dump")
 	}
-	_, err = Verify(ctx, dst, "test", VerifyOptions{InputDir: out, BatchSize: 2})
-	verifrt.Assert(err != nil, "verification fails when the database differs from the dump")
 }
